@@ -1,0 +1,19 @@
+"""Observation hook for external verification harnesses.
+
+Inactive unless the environment variable SEDFITTER_VERIF is set: then the
+objects passed to record() are appended to RECORDS so that a harness running
+in the same process can look at intermediate values (for instance the
+parameter table handed to the parameter plots). It never changes behaviour.
+"""
+import os
+
+RECORDS = []
+
+
+def enabled():
+    return bool(os.environ.get('SEDFITTER_VERIF'))
+
+
+def record(where, **values):
+    if enabled():
+        RECORDS.append((where, values))
